@@ -165,16 +165,23 @@ def expectation(items):
     """-> list of (sid, may_be_missing)"""
     out = []
     dirty = False      # something since the last delivered/lost valid packet that may swallow the next one
+    live_aa = False    # the previous item was a valid packet ending in 0xAA that may itself have been swallowed: its last byte is
+                       # then still in the resynchronising stream and forms a marker with noise that starts with 0x55
     for kind, b, k in items:
         if kind == "valid":
             out.append((k % 250, dirty))
+            live_aa = dirty and b[-1:] == b"\xaa"
             dirty = False
-        elif kind == "free":
-            pass
+            continue
+        if kind == "free":
+            if live_aa and b[:1] == b"\x55":
+                dirty = True
         elif kind == "corrupt":
             pass           # a 20-byte window with a bad checksum is dropped as a whole
         else:
             dirty = True
+        if b:
+            live_aa = False
     return out
 
 
